@@ -135,4 +135,9 @@ theorem flatten_take_prefix (l : List (List α)) (c : Nat) : (l.take c).flatten 
   refine ⟨(l.drop c).flatten, ?_⟩
   rw [← List.flatten_append, List.take_append_drop]
 
+theorem chunked_none_ok {size : Int} (hs : 0 < size) (fill : Option α) (src : List α) :
+    chunked size none fill src = .ok (chunkLoop size.toNat fill src.length src) := by
+  have h : ¬ size ≤ 0 := by omega
+  simp only [chunked, chunkedIter, h, ↓reduceIte]
+
 end C09
